@@ -46,14 +46,33 @@ pub fn edge_usize(r: &mut Rng, len: usize, base: usize) -> (usize, &'static str)
             let v = (usize::MAX as i128 - base as i128 + d).clamp(0, usize::MAX as i128) as usize;
             (v, "ptr-overflow")
         }
-        89..=94 => (r.usize_below(64), "small"),
+        89..=92 => (r.usize_below(64), "small"),
+        93..=96 => (pow2_near(r) as usize, "2^k+-d"),
         _ => (r.next() as usize, "random64"),
+    }
+}
+
+/// A power of two (any bit position 1..63) plus or minus a small distance, or a multiple of a
+/// power of two: values on which width-truncating arithmetic (u32 / i32 / 48-bit) and
+/// size-threshold fast paths change behaviour.
+pub fn pow2_near(r: &mut Rng) -> u64 {
+    let k = 1 + r.below(63);
+    let base = 1u64 << k;
+    match r.below(8) {
+        0 => base,
+        1 => base - 1,
+        2 => base.wrapping_add(1),
+        3 => base.wrapping_add(r.below(66)),
+        4 => base.wrapping_sub(r.below(66)),
+        5 => base.wrapping_mul(1 + r.below(4)),
+        6 => base.wrapping_add(1u64 << r.below(k)),
+        _ => base.wrapping_add(r.below(1 << 12)),
     }
 }
 
 /// Is the class one of the "huge / overflowing" ones?
 pub fn is_overflow_class(c: &str) -> bool {
-    matches!(c, "2^31" | "2^32" | "isize::MAX" | "2^63" | "usize::MAX" | "ptr-overflow" | "random64")
+    matches!(c, "2^31" | "2^32" | "isize::MAX" | "2^63" | "usize::MAX" | "ptr-overflow" | "random64" | "2^k+-d")
 }
 
 /// A guest address, biased towards the edges of the given regions (start, len) and the extremes.
@@ -79,6 +98,7 @@ pub fn edge_u64(r: &mut Rng, regions: &[(u64, u64)]) -> (u64, &'static str) {
         70..=73 => (((1u128 << 32) as i128 + r.below(33) as i128 - 16) as u64, "2^32"),
         74..=77 => (((1u128 << 63) as i128 + r.below(33) as i128 - 16) as u64, "2^63"),
         78..=87 => (u64::MAX - r.below(17), "2^64"),
+        88..=91 => (pow2_near(r), "2^k+-d"),
         _ => (r.next(), "random64"),
     }
 }
